@@ -355,7 +355,7 @@ pub fn match_cases(code: &str, r: &mut Rng, n: usize) -> Vec<Case> {
     cases
 }
 
-pub struct StoreGenOpts { pub max_records: usize, pub ops: usize, pub ties: bool, pub small_alphabet: bool }
+pub struct StoreGenOpts { pub max_records: usize, pub ops: usize, pub ties: bool, pub small_alphabet: bool, pub cache_stress: bool }
 
 pub fn store_case(code: &str, v: &Vocab, r: &mut Rng, name: String, o: &StoreGenOpts) -> Case {
     let mut ops = vec![Op::New];
@@ -380,6 +380,17 @@ pub fn store_case(code: &str, v: &Vocab, r: &mut Rng, name: String, o: &StoreGen
         next_id += 1;
     }
     for _ in 0..o.ops {
+        if o.cache_stress {
+            // histories that exercise derived state: empty-query searches interleaved with limit moves, adds, clears
+            match r.below(20) {
+                0..=6 => ops.push(Op::Search(r.pick(&["", " ", "-"]).to_string())),
+                7..=11 => ops.push(Op::Limit(r.below(titles.len() + 3))),
+                12..=15 => { let t = mk_title(r, &titles); titles.push(t.clone()); ops.push(Op::Add(next_id, rating(r, &mut used_ratings), t)); next_id += 1; }
+                16 => { ops.push(Op::Clear); titles.clear(); }
+                _ => { let q = if titles.is_empty() { v.title(r) } else { let t = r.pick(&titles).clone(); query_for(v, r, &t) }; ops.push(Op::Search(q)); }
+            }
+            continue;
+        }
         match r.below(16) {
             0 => { let t = mk_title(r, &titles); titles.push(t.clone()); ops.push(Op::Add(next_id, rating(r, &mut used_ratings), t)); next_id += 1; }
             1 => { if r.chance(1, 3) { ops.push(Op::Clear); titles.clear(); } }
@@ -394,19 +405,20 @@ pub fn store_case(code: &str, v: &Vocab, r: &mut Rng, name: String, o: &StoreGen
             }
         }
     }
-    Case { name, lang: code.to_string(), stream: if o.ties { "G-store-ties" } else if o.small_alphabet { "H-store-dense" } else { "F-store-ops" }, ops }
+    Case { name, lang: code.to_string(), stream: if o.cache_stress { "F-store-cache-stress" } else if o.ties { "G-store-ties" } else if o.small_alphabet { "H-store-dense" } else { "F-store-ops" }, ops }
 }
 
 pub fn store_cases(code: &str, r: &mut Rng, n: usize) -> Vec<Case> {
     let v = vocab(code);
     let mut cases = vec![];
     for i in 0..n {
-        let o = match i % 5 {
-            0 => StoreGenOpts { max_records: 6, ops: 12, ties: false, small_alphabet: false },
-            1 => StoreGenOpts { max_records: 25, ops: 10, ties: false, small_alphabet: false },
-            2 => StoreGenOpts { max_records: 12, ops: 10, ties: true, small_alphabet: false },
-            3 => StoreGenOpts { max_records: 45, ops: 8, ties: true, small_alphabet: true },
-            _ => StoreGenOpts { max_records: 4, ops: 25, ties: false, small_alphabet: false },
+        let o = match i % 6 {
+            0 => StoreGenOpts { max_records: 6, ops: 12, ties: false, small_alphabet: false, cache_stress: false },
+            1 => StoreGenOpts { max_records: 25, ops: 10, ties: false, small_alphabet: false, cache_stress: false },
+            2 => StoreGenOpts { max_records: 12, ops: 10, ties: true, small_alphabet: false, cache_stress: false },
+            3 => StoreGenOpts { max_records: 45, ops: 8, ties: true, small_alphabet: true, cache_stress: false },
+            4 => StoreGenOpts { max_records: 6, ops: 16, ties: true, small_alphabet: false, cache_stress: true },
+            _ => StoreGenOpts { max_records: 4, ops: 25, ties: false, small_alphabet: false, cache_stress: false },
         };
         cases.push(store_case(code, &v, r, format!("store-{}-{}", code, i), &o));
     }
